@@ -293,7 +293,9 @@ func (rs *RoachSource) StartRun() error {
 	go func() {
 		defer rs.Delete()
 		defer close(rs.nextBlock)
-		nextBlock := make(chan *dataBlock)
+		// Room for what the device readers still send when this goroutine has ended (at most a last data
+		// block and the error block for the closed socket, each): otherwise they block on the send for ever.
+		nextBlock := make(chan *dataBlock, 2*len(rs.active))
 		for _, dev := range rs.active {
 			go dev.readPackets(nextBlock)
 		}
